@@ -375,6 +375,14 @@ def c07_5(ctx):
     _refcheck(ctx, TX, "Tx.stream_unspents", "tx_stream_unspents", "unspents-writer")
     _refcheck(ctx, TX, "Tx.parse_unspents", "tx_parse_unspents", "unspents-reader")
     _refcheck(ctx, CTX, "Tx.set_unspents", "btx_set_unspents", "unspents-count")
+    # set_unspents records what it is given: it has no refusal by the VALUE of a spent output (parse_unspents runs inside from_bin's
+    # catch-all, so a refusal there silently drops the whole extension on the way back)
+    su = ctx.func(CTX, "Tx.set_unspents")
+    wsu = sym.walk(ctx, su)
+    byval = [e for e in wsu.exits if e.kind == "raise" and e.cond not in (True, False) and any(isinstance(o, str) and ("coin_value" in o or ".script" in o) for o in gi.f_opaques(e.cond))]
+    ctx.check(not byval, "unspents-recorded-whatever-their-value", ctx.where(su, byval[0].node) if byval else ctx.where(su),
+              "Tx.set_unspents refuses spent outputs under `%s`: Tx.from_bin reads the unspents extension inside a catch-all, so such a transaction comes back without its spent outputs (bytes -> tx -> bytes is no longer the identity)" % ([o for o in gi.f_opaques(byval[0].cond) if isinstance(o, str)][0][:70] if byval else ""),
+              sample={"refusals_by_value": 0})
     # the reader takes a record for `unknown` exactly when its AMOUNT is zero (the property states the extension for non-zero
     # amounts; a spent output with an empty script and a non-zero amount is a real output): the condition under which None is
     # recorded, over the function's inputs, whatever the local is called
